@@ -57,9 +57,9 @@ func runC15(o opts) error {
 			scns = append(scns, c15.GenHidden(4, 4, rng, 4)...)
 			scns = append(scns, c15.GenRandom(rng, 400, true, false)...)
 			scns = append(scns, c15.GenReparent(4, 4, rng, 0)...)
-			scns = append(scns, c15.GenReparent(5, 5, rng, 24)...)
-			scns = append(scns, c15.GenRandom(rng, 200, false, true)...)
-			scns = append(scns, c15.GenRandom(rng, 100, true, true)...)
+			scns = append(scns, c15.GenReparent(5, 5, rng, 32)...)
+			scns = append(scns, c15.GenRandom(rng, 160, false, true)...)
+			scns = append(scns, c15.GenRandom(rng, 60, true, true)...)
 		}
 	}
 	sink, err := trace.NewSink(o.out, o.shards)
